@@ -36,6 +36,24 @@ Theorem C20_post_file_returns_path_address :
 Proof. exact post_file_address. Qed.
 Print Assumptions C20_post_file_returns_path_address.
 
+(* what a client derives from the plain path parent/child (types.MerkleHelper, the CLI's merkleHelper):
+   exactly the parent's address and the hash of the child segment, and posting with them returns the
+   address computed from the plain path *)
+Theorem C20_client_derives_parent_and_child :
+  forall (H : bytes -> bytes) (parent child : bytes),
+    child <> [] -> has_slash child = false -> ends_with_slash parent = false ->
+    client_split H (parent ++ slash :: child) = (merkle_path H parent, hexH H child).
+Proof. exact client_split_parts. Qed.
+Print Assumptions C20_client_derives_parent_and_child.
+
+Theorem C20_client_post_returns_plain_path_address :
+  forall (H : bytes -> bytes) (parent child : bytes),
+    child <> [] -> has_slash child = false -> ends_with_slash parent = false ->
+    let (hp, hc) := client_split H (parent ++ slash :: child) in
+    post_file_path H hp hc = merkle_path H (parent ++ slash :: child).
+Proof. exact client_split_recombines. Qed.
+Print Assumptions C20_client_post_returns_plain_path_address.
+
 Theorem C20_distinct_segments_distinct_addresses :
   forall (H : bytes -> bytes), (forall x, length (H x) = 32%nat) ->
   forall l1 l2 : list bytes, l1 <> [] -> l2 <> [] ->
